@@ -32,6 +32,7 @@ func VerifC15_Ticks() {
 	a, _ := mk("intervalA")
 	b, ivB := mk("intervalB")
 	withA := verifrt.Choose(2) == 1
+	busy := verifrt.Choose(2) == 1
 	t := verifrt.NondetInt64("t0")
 	verifrt.Assume(t > 0)
 	verifrt.Assume(t < 1<<41)
@@ -50,6 +51,10 @@ func VerifC15_Ticks() {
 			a.updateCRLs(false)
 		}
 		verifrt.SetNow(tickB)
+		if busy {
+			// another validator is in the middle of its own refresh when B's tick arrives
+			verifrt.OtherThreadHolds(&crlUpdateMutex)
+		}
 		b.updateCRLs(false)
 	}
 	verifrt.FreeNow()
